@@ -32,6 +32,12 @@ import (
 // phase, one "header set" entry with the Content-Type found in the map at that moment - i.e.
 // the value in force when that Write/Flush happens.
 //
+// Which writer OBJECT a Write / Flush arrived at is part of the observation: every layer knows its depth in the
+// Unwrap chain (0 = the writer handed to Upgrade / ServeHTTP), and every Send / Flush of the session reports, next
+// to its entries, the depth of the layer each of its Write / Flush calls was made on.  A middleware writer that can
+// flush (it buffers, compresses, counts) must see the session's traffic itself; only a layer that cannot flush is
+// looked through.
+//
 // A Content-Type may already be on the response before the session's first Send/Flush ("preset":
 // a middleware in front of sse.Upgrade, or OnSession preparing an error answer and accepting
 // after all); presetopt = () | ((x<value> ...)) is assigned to Header()["Content-Type"] as it is
@@ -52,6 +58,7 @@ type rwRec struct {
 	hdr     http.Header
 	touched bool
 	cur     *[]val.V
+	depths  []val.V // the layer (depth in the Unwrap chain) of every Write / Flush since the last reset
 }
 
 func (r *rwRec) pending() {
@@ -83,8 +90,9 @@ func (r *rwRec) header() http.Header {
 	return r.hdr
 }
 
-func (r *rwRec) write(p []byte) (int, error) {
+func (r *rwRec) write(p []byte, depth int) (int, error) {
 	r.pending()
+	r.depths = append(r.depths, val.Int(depth))
 	fail, k, e, v := r.next()
 	*r.cur = append(*r.cur, val.L(val.N(1), val.B(append([]byte(nil), p...)), v))
 	if fail {
@@ -96,8 +104,9 @@ func (r *rwRec) write(p []byte) (int, error) {
 	return len(p), nil
 }
 
-func (r *rwRec) flush(canReport bool) error {
+func (r *rwRec) flush(canReport bool, depth int) error {
 	r.pending()
+	r.depths = append(r.depths, val.Int(depth))
 	fail, _, e, _ := r.next()
 	if fail && canReport {
 		*r.cur = append(*r.cur, val.L(val.N(2), val.N(e)))
@@ -115,10 +124,11 @@ func (r *rwRec) writeHeader(code int) {
 type layerBase struct {
 	rec   *rwRec
 	inner http.ResponseWriter
+	depth int
 }
 
 func (l layerBase) Header() http.Header         { return l.rec.header() }
-func (l layerBase) Write(p []byte) (int, error) { return l.rec.write(p) }
+func (l layerBase) Write(p []byte) (int, error) { return l.rec.write(p, l.depth) }
 func (l layerBase) WriteHeader(code int)        { l.rec.writeHeader(code) }
 
 // the eight method sets: FlushError / Flush / Unwrap
@@ -135,22 +145,24 @@ func (l l001) Unwrap() http.ResponseWriter { return l.inner }
 func (l l011) Unwrap() http.ResponseWriter { return l.inner }
 func (l l101) Unwrap() http.ResponseWriter { return l.inner }
 func (l l111) Unwrap() http.ResponseWriter { return l.inner }
-func (l l010) Flush()                      { _ = l.rec.flush(false) }
-func (l l011) Flush()                      { _ = l.rec.flush(false) }
-func (l l100) FlushError() error           { return l.rec.flush(true) }
-func (l l101) FlushError() error           { return l.rec.flush(true) }
-func (l l110) FlushError() error           { return l.rec.flush(true) }
-func (l l111) FlushError() error           { return l.rec.flush(true) }
+func (l l010) Flush()                      { _ = l.rec.flush(false, l.depth) }
+func (l l011) Flush()                      { _ = l.rec.flush(false, l.depth) }
+func (l l100) FlushError() error           { return l.rec.flush(true, l.depth) }
+func (l l101) FlushError() error           { return l.rec.flush(true, l.depth) }
+func (l l110) FlushError() error           { return l.rec.flush(true, l.depth) }
+func (l l111) FlushError() error           { return l.rec.flush(true, l.depth) }
 func (l l110) Flush()                      { _ = l.FlushError() }
 func (l l111) Flush()                      { _ = l.FlushError() }
 
-func buildWriter(rec *rwRec, shape val.V) http.ResponseWriter {
+func buildWriter(rec *rwRec, shape val.V) http.ResponseWriter { return buildLayer(rec, shape, 0) }
+
+func buildLayer(rec *rwRec, shape val.V, depth int) http.ResponseWriter {
 	var inner http.ResponseWriter
 	hasInner := shape.At(2).Present()
 	if hasInner {
-		inner = buildWriter(rec, shape.At(2).At(0))
+		inner = buildLayer(rec, shape.At(2).At(0), depth+1)
 	}
-	b := layerBase{rec, inner}
+	b := layerBase{rec, inner, depth}
 	fe, fl := shape.At(0).Truth(), shape.At(1).Truth()
 	switch {
 	case !fe && !fl && !hasInner:
@@ -191,12 +203,13 @@ func buildMessage(v val.V) *sse.Message {
 	return m
 }
 
-// performs the calls on a MessageWriter; per call (returned, entries)
+// performs the calls on a MessageWriter; per call (returned, entries, the layer of every Write / Flush among them)
 func runSessionCalls(rec *rwRec, back *[]val.V, mw sse.MessageWriter, pool []*sse.Message, calls []val.V) []val.V {
 	out := make([]val.V, 0, len(calls))
 	for _, c := range calls {
 		var bucket []val.V
 		rec.phase(&bucket)
+		rec.depths = nil
 		var err error
 		if c.At(0).Num() == 0 {
 			m := &sse.Message{}
@@ -208,7 +221,7 @@ func runSessionCalls(rec *rwRec, back *[]val.V, mw sse.MessageWriter, pool []*ss
 			err = mw.Flush()
 		}
 		rec.phase(back)
-		out = append(out, val.L(val.N(sessErrCode(err)), val.List(bucket)))
+		out = append(out, val.L(val.N(sessErrCode(err)), val.List(bucket), val.List(rec.depths)))
 	}
 	return out
 }
@@ -463,6 +476,20 @@ var (
 		shapeV(false, true, shFlushError), // outer plain Flusher hides an inner FlushError
 		shapeV(true, true, shNone),
 	}
+	// more than one layer that can flush: a middleware writer that flushes (with or without reporting) and hands out the
+	// writer it wraps, over a writer that flushes in the other / the same way, directly or through a layer that only unwraps;
+	// and such a pair behind a layer that only unwraps
+	layeredShapes = []val.V{
+		shapeV(true, false, shFlusher),
+		shapeV(false, true, shBoth),
+		shapeV(true, true, shFlushError),
+		shapeV(false, true, shFlusher),
+		shapeV(true, false, shFlushError),
+		shapeV(false, true, shapeV(false, false, shFlushError)),
+		shapeV(false, false, shapeV(false, true, shFlushError)),
+		shapeV(false, false, shapeV(true, false, shFlusher)),
+		shapeV(false, true, shapeV(false, true, shBoth)),
+	}
 	deadShapes = []val.V{shNone, shapeV(false, false, shNone), shapeV(false, false, shapeV(false, false, shNone))}
 )
 
@@ -641,6 +668,21 @@ func genSession(c *Ctx) {
 			}
 		}
 	}
+	// several flushing layers: every call sequence of up to two calls, without a failure and with one at every operation
+	for _, shape := range layeredShapes {
+		for _, seq := range seqs {
+			if len(seq) > 2 {
+				continue
+			}
+			c.Count("layered:no-failure")
+			c.Emit(val.L(val.N(0), shape, pool, val.List(seq), val.L()))
+			ops := countOps(shape, pool, seq)
+			for k := 0; k < ops; k++ {
+				c.Count("layered:failure-at-every-operation")
+				c.Emit(val.L(val.N(0), shape, pool, val.List(seq), withChars(c, failAt(k, k%2, uint64(2+k%7)))))
+			}
+		}
+	}
 	for _, shape := range deadShapes {
 		c.Count("upgrade:writer-cannot-flush")
 		c.Emit(val.L(val.N(0), shape, pool, val.L(sendV(0), flushV()), val.L()))
@@ -677,6 +719,7 @@ func genSession(c *Ctx) {
 	}
 
 	// random: random messages, longer call sequences, scripts with several failures
+	anyFlushShapes := append(append([]val.V{}, flushShapes...), layeredShapes...)
 	n := 4000
 	if c.Thorough {
 		n = 80000
@@ -711,7 +754,7 @@ func genSession(c *Ctx) {
 			pre = presets[c.R.Intn(len(presets))]
 			c.Count("random:content-type-preset")
 		}
-		c.Emit(val.L(val.N(0), rng.Pick(c.R, flushShapes), val.List(msgs), val.List(calls), withChars(c, val.List(script)), pre))
+		c.Emit(val.L(val.N(0), rng.Pick(c.R, anyFlushShapes), val.List(msgs), val.List(calls), withChars(c, val.List(script)), pre))
 	}
 
 	// ServeHTTP: every combination of writer shape, Last-Event-Id values, OnSession result,
@@ -775,6 +818,7 @@ func genSession(c *Ctx) {
 	provs = append(provs, provider{nil, val.L(val.S(sse.ErrProviderClosed.Error()))})
 	scripts := []val.V{val.L(), failAt(0, 0, 3), failAt(0, 5, 3), failAt(1, 2, 4), failAt(2, 0, 5), failAt(4, 1, 6)}
 	shapes := append(append([]val.V{}, flushShapes...), deadShapes...)
+	allShapes := append(append([]val.V{}, shapes...), layeredShapes...)
 	for _, sh := range shapes {
 		for _, h := range headers {
 			for oi, o := range ons {
@@ -796,6 +840,18 @@ func genSession(c *Ctx) {
 						c.Emit(val.L(val.N(1), sh, h, o, pool, val.List(p.calls), p.perr, withChars(c, s)))
 					}
 				}
+			}
+		}
+	}
+	// several flushing layers through ServeHTTP
+	for _, sh := range layeredShapes {
+		for pi, p := range provs[:baseProvs] {
+			for si, s := range scripts {
+				if (pi+si)%2 == 1 {
+					continue
+				}
+				c.Count("serve:layered")
+				c.Emit(val.L(val.N(1), sh, headers[(pi+si)%len(headers)], ons[si%baseOns], pool, val.List(p.calls), p.perr, withChars(c, s)))
 			}
 		}
 	}
@@ -866,7 +922,7 @@ func genSession(c *Ctx) {
 			}
 		}
 		c.Count("serve:random")
-		c.Emit(val.L(val.N(1), rng.Pick(c.R, shapes), h, rng.Pick(c.R, ons), pool, val.List(calls), perr, withChars(c, val.List(script))))
+		c.Emit(val.L(val.N(1), rng.Pick(c.R, allShapes), h, rng.Pick(c.R, ons), pool, val.List(calls), perr, withChars(c, val.List(script))))
 	}
 
 	// a real net/http server on the loopback interface, when this machine has one
